@@ -65,6 +65,9 @@ type Meta struct {
 	// A check whose PROPERTY is determinism itself (C01) sets 1: a divergence between identically fed replicas
 	// that shows up only sometimes is exactly the violation, not harness noise.
 	MinRepro int
+	// CaseTimeout: watchdog per case (default 300 s). A case that exceeds it kills its worker; the parent then treats
+	// the case like a dead worker (harness error, or a violation when DeathIsViolation).
+	CaseTimeout time.Duration
 	// WorkerGOMAXPROCS: GOMAXPROCS of each worker process (default 1: 16 single-threaded workers beat 16x16 GC threads).
 	WorkerGOMAXPROCS int
 }
@@ -209,7 +212,16 @@ func WorkerMain(args []string) int {
 		}
 		fmt.Fprintf(w, "#start %d\n", i)
 		w.Flush()
+		to := c.Meta().CaseTimeout
+		if to == 0 {
+			to = 300 * time.Second
+		}
+		wd := time.AfterFunc(to, func() {
+			fmt.Fprintf(os.Stderr, "WATCHDOG: case %d of %s exceeded %v - worker exits\n", i, id, to)
+			os.Exit(3)
+		})
 		r := safeRun(c, i)
+		wd.Stop()
 		_ = enc.Encode(r)
 		w.Flush()
 	}
